@@ -376,7 +376,7 @@ class Body:
                 out.append(l)
         return out
 
-    def reachable_with_flag(self, start, flag, avoid=()):
+    def reachable_with_flag(self, start, flag, avoid=(), states=False):
         """Blocks reachable from `start` when the value of the bool local `flag` is tracked
         (path-sensitive in that one variable only; prunes switch edges that contradict it)."""
         avoid = set(avoid)
@@ -432,6 +432,8 @@ class Body:
                     succs = [tgt]
             for s2 in succs:
                 work.append((s2, val))
+        if states:
+            return seen
         return out
 
     def must_pass(self, start, target, through):
